@@ -47,6 +47,8 @@ structure SCfg where
   customWhich : Bool
   durTable : List (String × Option Nat)
   feats : List SFeat
+  /-- scenario id ↦ number of background steps it inherits (feature background ++ rule background) -/
+  bgTable : List (Nat × Nat) := []
 
 def SCfg.limit (c : SCfg) : Option Nat := c.cliConc.or (c.builderConc.getD (some 64))
 def SCfg.failFast (c : SCfg) : Bool := c.cliFF || c.builderFF
